@@ -9,7 +9,6 @@ import (
 	"regexp"
 	"sort"
 	"strings"
-	"time"
 
 	ber "github.com/go-asn1-ber/asn1-ber"
 	"github.com/honeytrap/honeytrap/event"
@@ -200,9 +199,18 @@ func runDiffOnce(in *DInput, withOthers bool) ([]string, string) {
 		}
 	}
 	if !udp {
-		// late events of pump goroutines
-		e.quiet = 8 * time.Millisecond
-		e.settle(e.rec.count())
+		// late events of pump goroutines (ftp, smtp: the event of the last line of a connection is
+		// sent after its handler is back in Read): give every runnable goroutine many turns, until
+		// the number of events has stopped changing over such a round - scales with the machine load
+		for n, same := e.rec.count(), 0; same < 3; {
+			schedBarrier(200)
+			e.settle(e.rec.count())
+			if m := e.rec.count(); m == n {
+				same++
+			} else {
+				n, same = m, 0
+			}
+		}
 		absorb(e.harvest())
 	}
 	out = append(out, pend.String(), evs.String())
